@@ -1,5 +1,6 @@
 import MsiProofs.Props.C07b
 import MsiProofs.Lemmas.Gate
+import MsiProofs.Lemmas.UpdateGate
 /-
 C07, the gate at the level of the package state — what `Insert::exec` replies is a function of the
 relational view (the rows the table shows) and the request: refused exactly for a wrong number of
@@ -16,5 +17,15 @@ def loadMap_some := @MsiProofs.Gate.loadMap_some
 def addRows_no_err := @MsiProofs.Gate.addRows_no_err
 /-- **the reply of `Insert::exec` is the gate's verdict on the relational view** -/
 def insert_reply := @MsiProofs.Gate.insert_reply
+
+/-- the duplicate check of `Update::exec` (sort by key, compare neighbours) finds a duplicate exactly
+when the keys are not pairwise different -/
+def dup_flag_iff := @MsiProofs.UpdateGate.dup_flag_iff
+/-- once the new cells exist, writing the table back cannot fail -/
+def storeRows_upd_ok := @MsiProofs.UpdateGate.storeRows_upd_ok
+/-- **the reply of `Update::exec` is the gate's verdict on the relational view**: refused exactly for
+an unknown column or a value not valid for its column in an assignment, an unknown column in the
+condition, or - when a key column is assigned - two rows ending up with the same key -/
+def update_reply := @MsiProofs.UpdateGate.update_reply
 
 end MsiProofs.C07
